@@ -16,6 +16,9 @@ QUICK = [
     ("dispose instants; outer events at the subscription instant",
      dict(Ops={"merge_all", "merge_mc"}, MCs={1}, Tabs={"plain"}, Flavours={"sync"}, MaxOuter=2, OTimes={0, 1, 2},
           OTermTimes={0, 2, 5}, DspTicks={0, 1, 2, 3})),
+    ("cut by take(k) in the middle of a notification",
+     dict(Ops={"merge_all", "merge_mc", "concat_map"}, MCs={1, 2}, Tabs={"short"}, Flavours={"sync"}, RG=False, OTimes={0, 1},
+          OTermTimes={2}, OTerms={"C", "U"}, Takes={1, 2})),
 ]
 
 THOROUGH = [
@@ -34,6 +37,11 @@ THOROUGH = [
                               DspTicks={0, 1, 2, 3, 4, 5}, OTermTimes={2, 5})),
     ("outer events at the subscription instant", dict(Ops={"merge_all", "merge_mc", "flat_map"}, MCs={1, 2}, Tabs={"short", "error"},
                                                       Flavours={"cold", "sync"}, OTimes={0, 1, 2}, OTermTimes={0, 1, 3})),
+    ("cut by take(k) in the middle of a notification",
+     dict(Ops={"merge_all", "merge_mc", "concat_map", "flat_map"}, MCs={1, 2, 3}, Tabs={"short", "plain", "error"}, Flavours={"sync", "cold"},
+          RG=False, OTimes={0, 1, 2}, OTermTimes={2, 5}, OTerms={"C", "U"}, Takes={1, 2, 3})),
+    ("mapper returning a list / constant mapper", dict(Ops={"flat_map", "flat_map_indexed", "concat_map"}, Tabs={"zero"}, Flavours={"cold"},
+                                                       RG=False, Faults=True)),
     ("generated tables", dict(Ops={"merge_all", "merge_mc"}, MCs={1, 2}, Tabs={"gen"}, Flavours={"cold", "sync"}, MaxOuter=3,
                               OTimes={1, 2}, OTermTimes={1, 2, 4}, GenN=2, GenLen=2, GenTimes={0, 1, 2})),
 ]
@@ -41,7 +49,7 @@ SIM = [
     ("simulate: generated tables, 3 inners", dict(Ops={"merge_all", "merge_mc", "flat_map", "concat_map", "flat_map_indexed"}, MCs={1, 2, 3},
                                                   Tabs={"gen"}, Flavours={"cold", "sync", "hot"}, MaxOuter=4, OTimes={1, 2, 3, 4},
                                                   OTermTimes={1, 2, 3, 4, 6, 8}, GenN=3, GenLen=3, GenTimes={0, 1, 2, 3}, RG=False,
-                                                  Faults=True, DspTicks={1, 3, 5})),
+                                                  Faults=True, DspTicks={1, 3, 5}, Takes={2, 3})),
 ]
 
 
